@@ -49,7 +49,7 @@ def client_to_configured_device(ctx):
     import socket, subprocess, sys, time
     from cpppo.server.enip import client
     s = socket.socket(); s.bind(('127.0.0.1', 0)); port = s.getsockname()[1]; s.close()
-    proc = subprocess.Popen([sys.executable, '-m', 'cpppo.server.enip', '--no-udp', '-a', '127.0.0.1:%d' % port, '--route-path', '1/0', 'T=DINT[12]'],
+    proc = subprocess.Popen([sys.executable, '-m', 'cpppo.server.enip', '--no-udp', '-a', '127.0.0.1:%d' % port, '--route-path', '1/0', 'T=DINT[12]', 'U@0x99/1/3=DINT'],
                             stdout=subprocess.DEVNULL, stderr=subprocess.DEVNULL, cwd='/')
     problems = []
     try:
@@ -102,6 +102,33 @@ def client_to_configured_device(ctx):
                     if r in good and i < first_bad and now[i] != vals[i]:
                         problems.append(dict(w, problem='write #%d (acceptable route path, before any refusal) did not land' % i))
                         return problems
+        # the attribute services too: Set Attribute Single on the scalar attribute @0x99/1/3, one operation per connection, each with its
+        # own route path
+        from cpppo.server.enip.get_attribute import attribute_operations
+        for k, r in enumerate(good + other):
+            val = 7000 + k
+            ops = list(attribute_operations(['@0x99/1/3=(DINT)%d' % val]))
+            for op in ops:
+                if r is not None:
+                    op['route_path'] = r
+            try:
+                conn = client.connector(host='127.0.0.1', port=port, timeout=3)
+                try:
+                    with conn:
+                        list(conn.operate(ops, depth=0, multiple=0, timeout=3))
+                finally:
+                    conn.close()
+            except Exception:
+                pass
+            with client.connector(host='127.0.0.1', port=port, timeout=3) as rd:
+                now = None
+                for _i, _d, _q, _r, sts, v in rd.operate(list(client.parse_operations(['U'])), depth=0, timeout=3):
+                    now = list(v) if v else None
+            w = dict(service='Set Attribute Single @0x99/1/3', route=r, value=val, attribute_after=now)
+            if r in good and now != [val]:
+                problems.append(dict(w, problem='a Set Attribute Single carrying an acceptable route path (%r) did not land' % (r,))); return problems
+            if r not in good and now == [val]:
+                problems.append(dict(w, problem='a Set Attribute Single carrying route path %r, which a device configured 1/0 must refuse, landed' % (r,))); return problems
         return problems
     finally:
         proc.terminate()
